@@ -959,6 +959,11 @@ func (env *Env) elabCall(x ECall) (Val, error) {
 		if v.T.Sort == "Int" {
 			return Val{T: app("Str", "schr", v.T), GoT: types.Typ[types.String]}, nil
 		}
+		if at, ok := v.GoT.Underlying().(*types.Array); ok && v.T.Sort == "(Array Int Int)" && at.Len() < 1<<30 {
+			// string(a) of a byte array value: its bytes as a string
+			P.need["str_of_bytes"] = true
+			return Val{T: app("Str", "str_of_bytes", v.T, Term{"0", "Int"}, intLit(at.Len())), GoT: types.Typ[types.String]}, nil
+		}
 		return v, nil
 	case "fn": // a named library or package function used as a value: fn("unicode.IsSpace")
 		ts, ok := x.Args[0].(EStr)
